@@ -6,12 +6,21 @@ import Autd3.Drv.Common
 geo <numTr of device 0> <numTr of device 1> …        new history: fresh caches            → ok
 send <w> <par> <mask> <tree>                          one send of a gain datagram
    w    = -  (bare gain) | 0 | 1 | 0i | 1i            WithSegment{S0|S1, None | Some(Immediate)}
+        | <0|1><e|s|g|t>                              WithSegment{S0|S1, Some(Ext | SyncIdx | GPIO(_) | SysTime(_))}
+          optionally followed by `+p`: the harness also packs with `parallel` (no effect on the answer)
+stm <w> <par> <mask> <tree>;<tree>;… | -              one send of GainSTM{gains: vec![<tree>,…]} (`-`: empty),
+   w    = - | 0 | 1 | 0i | 1i  [+p]                   bare or inside WithSegment; mode PhaseIntensityFull
+pair <a><b>[+p] <par> <mask> <tree>;<tree>            one send of (WithSegment{t1,S0,a}, WithSegment{t2,S1,b}), a,b = - | i
    par  = 0 | 1                                       `parallel` argument of operation_generator
    mask = one 0/1 per device                          enable flags
    tree = L<salt> | H<salt> | E<salt> | B(<tree>) | C<id>(<tree>) | G[<row>|<row>|…]{<k>:<tree>,…}
           row = one char per transducer: `.` no key, 0-9 a-z key 0…35
 answer: ok seg=<0|1> tm=<i|-> d<idx>=<hex phase,intensity per transducer>@<requested segment>… [H<salt>@<par>:<filter>]…
       | err unknown-key | err unused-keys <k,k,…> | err cache-geometry | err leaf | panic
+      | err invalid-transition-mode                   (send with a mode other than Immediate and a device enabled)
+pair:   ok tm=<a><b> d<idx>=<hex in S0>/<hex in S1>@<requested segment>… [H…]… | the errors of `send`
+stm:    ok seg=<0|1> tm=<i|-> n=<len> d<idx>=<hex of index 0>/<hex of index 1>/…@<requested segment>… [H…]…
+      | err stm-size <len> | the errors of `send`
 ```
 -/
 namespace Autd3.Drv.C14
@@ -118,6 +127,25 @@ def parseWrap : String → Option (Option (Segment × Option Transition))
   | "1i" => some (some (.S1, some .immediate))
   | _ => none
 
+/-- `WithSegment` with a transition mode other than `Immediate` -/
+def parseModeWrap : String → Option (Segment × TMode × String)
+  | "0e" => some (.S0, .ext, "e")
+  | "1e" => some (.S1, .ext, "e")
+  | "0s" => some (.S0, .syncIdx, "s")
+  | "1s" => some (.S1, .syncIdx, "s")
+  | "0g" => some (.S0, .gpio, "g")
+  | "1g" => some (.S1, .gpio, "g")
+  | "0t" => some (.S0, .sysTime, "t")
+  | "1t" => some (.S1, .sysTime, "t")
+  | _ => none
+
+/-- `+p` after the wrap token: how the harness packs; not a parameter of the model -/
+def stripVia (w : String) : String :=
+  match w.splitOn "+" with
+  | [a] => a
+  | [a, "p"] => a
+  | _ => "?"
+
 def parseMask (s : String) : Option (List Bool) :=
   s.toList.mapM fun c => if c = '1' then some true else if c = '0' then some false else none
 
@@ -147,19 +175,78 @@ def segStr : Segment → String
   | .S0 => "0"
   | .S1 => "1"
 
+def failStr : Fail → String
+  | .panic _ => "panic"
+  | .err (.unknownKey _) => "err unknown-key"
+  | .err (.unusedKeys ks) => "err unused-keys " ++ ",".intercalate ((sortNats ks).map toString)
+  | .err .cacheGeometry => "err cache-geometry"
+  | .err .leaf => "err leaf"
+
+def logsStr (log : List (Nat × Bool × Option Filter)) : String :=
+  String.join ((sortStrings (log.map logStr)).map (" " ++ ·))
+
+def tmStr : Option Transition → String
+  | some .immediate => "i"
+  | none => "-"
+
 def answer (r : Except Fail Sent) (req : Nat → Segment) (log : List (Nat × Bool × Option Filter)) : String :=
   match r with
-  | .error (.panic _) => "panic"
-  | .error (.err (.unknownKey _)) => "err unknown-key"
-  | .error (.err (.unusedKeys ks)) => "err unused-keys " ++ ",".intercalate ((sortNats ks).map toString)
-  | .error (.err .cacheGeometry) => "err cache-geometry"
-  | .error (.err .leaf) => "err leaf"
+  | .error f => failStr f
   | .ok s =>
-    let seg := segStr s.segment
-    let tm := match s.transition with | some .immediate => "i" | none => "-"
     let ds := s.drives.map fun (d, row) => s!" d{d}={drivesHex row}@{segStr (req d)}"
-    let ls := (sortStrings (log.map logStr)).map (" " ++ ·)
-    s!"ok seg={seg} tm={tm}" ++ String.join ds ++ String.join ls
+    s!"ok seg={segStr s.segment} tm={tmStr s.transition}" ++ String.join ds ++ logsStr log
+
+def sendFailStr : SendFail → String
+  | .gain f => failStr f
+  | .invalidTransitionMode => "err invalid-transition-mode"
+  | .stmSize n => s!"err stm-size {n}"
+
+/-- answer of a send with a mode other than `Immediate` (`tmc`: the letter of the mode; an `ok` has
+no drives, nothing having been sent) -/
+def answerMode (r : Except SendFail Sent) (tmc : String) (req : Nat → Segment)
+    (log : List (Nat × Bool × Option Filter)) : String :=
+  match r with
+  | .error f => sendFailStr f
+  | .ok s =>
+    let ds := s.drives.map fun (d, row) => s!" d{d}={drivesHex row}@{segStr (req d)}"
+    s!"ok seg={segStr s.segment} tm={tmc}" ++ String.join ds ++ logsStr log
+
+def answerStm (r : Except SendFail SentStm) (req : Nat → Segment) (log : List (Nat × Bool × Option Filter)) :
+    String :=
+  match r with
+  | .error f => sendFailStr f
+  | .ok s =>
+    let devs : List Nat := match s.patterns with
+      | [] => []
+      | p :: _ => p.map fun (x : Nat × List Drive) => x.1
+    let ds := devs.map fun d =>
+      let rows := s.patterns.map fun (p : List (Nat × List Drive)) =>
+        match List.lookup d p with | some row => drivesHex row | none => "?"
+      s!" d{d}={"/".intercalate rows}@{segStr (req d)}"
+    s!"ok seg={segStr s.segment} tm={tmStr s.transition} n={s.patterns.length}" ++ String.join ds ++ logsStr log
+
+def parseTm : Char → Option (Option Transition)
+  | '-' => some none
+  | 'i' => some (some .immediate)
+  | _ => none
+
+def answerPair (r : Except Fail (Sent × Sent)) (tm : String) (req : Nat → Segment)
+    (log : List (Nat × Bool × Option Filter)) : String :=
+  match r with
+  | .error f => failStr f
+  | .ok (s1, s2) =>
+    let ds := s1.drives.map fun ((d, row) : Nat × List Drive) =>
+      let row2 := match List.lookup d s2.drives with | some r => drivesHex r | none => "?"
+      s!" d{d}={drivesHex row}/{row2}@{segStr (req d)}"
+    s!"ok tm={tm}" ++ String.join ds ++ logsStr log
+
+/-- `T;T;…` or `-` -/
+def parseTrees (dims : List Nat) (s : String) : Option (List Tree) :=
+  if s = "-" then some []
+  else (s.splitOn ";").mapM fun t =>
+    match parseTree dims (t.length + 1) t.toList with
+    | some (tr, []) => some tr
+    | _ => none
 
 def step (st : St) (line : String) : St × String :=
   match words line with
@@ -169,15 +256,49 @@ def step (st : St) (line : String) : St × String :=
       if dims.isEmpty ∨ dims.length > 8 ∨ dims.any (fun n => n = 0 ∨ n > 249) then (st, "bad-op")
       else ({ dims := dims, σ := {}, req := fun _ => .S0 }, "ok")
     | none => (st, "bad-op")
-  | ["send", w, par, mask, tree] =>
-    match parseWrap w, parseMask mask, parseTree st.dims (tree.length + 1) tree.toList with
-    | some wrap, some en, some (t, []) =>
+  | ["send", wv, par, mask, tree] =>
+    let w := stripVia wv
+    match parseMask mask, parseTree st.dims (tree.length + 1) tree.toList with
+    | some en, some (t, []) =>
       if (par ≠ "0" ∧ par ≠ "1") ∨ en.length ≠ st.dims.length ∨ st.dims.isEmpty then (st, "bad-op")
       else
         let geo := Geo.ofList (st.dims.zip en)
-        let (r, σ') := send { tree := t, wrap := wrap } geo (par = "1") { st.σ with log := [] }
-        let req' := match r with | .ok s => applyReq st.req s | .error _ => st.req
-        ({ st with σ := σ', req := req' }, answer r req' σ'.log)
+        match parseWrap w, parseModeWrap w with
+        | some wrap, _ =>
+          let (r, σ') := send { tree := t, wrap := wrap } geo (par = "1") { st.σ with log := [] }
+          let req' := match r with | .ok s => applyReq st.req s | .error _ => st.req
+          ({ st with σ := σ', req := req' }, answer r req' σ'.log)
+        | none, some (seg, mode, tmc) =>
+          let (r, σ') := sendMode t seg mode geo (par = "1") { st.σ with log := [] }
+          -- nothing reaches a device: the requested segments stay
+          ({ st with σ := σ' }, answerMode r tmc st.req σ'.log)
+        | none, none => (st, "bad-op")
+    | _, _ => (st, "bad-op")
+  | ["pair", wv, par, mask, trees] =>
+    match (stripVia wv).toList, parseMask mask, parseTrees st.dims trees with
+    | [a, b], some en, some [t1, t2] =>
+      match parseTm a, parseTm b with
+      | some tm1, some tm2 =>
+        if (par ≠ "0" ∧ par ≠ "1") ∨ en.length ≠ st.dims.length ∨ st.dims.isEmpty then (st, "bad-op")
+        else
+          let geo := Geo.ofList (st.dims.zip en)
+          let (r, σ') := sendPair t1 t2 tm1 tm2 geo (par = "1") { st.σ with log := [] }
+          -- the frame(s) carry the gain for S0 first
+          let req' := match r with | .ok (s1, s2) => applyReq (applyReq st.req s1) s2 | .error _ => st.req
+          ({ st with σ := σ', req := req' }, answerPair r (stripVia wv) req' σ'.log)
+      | _, _ => (st, "bad-op")
+    | _, _, _ => (st, "bad-op")
+  | ["stm", wv, par, mask, trees] =>
+    match parseWrap (stripVia wv), parseMask mask, parseTrees st.dims trees with
+    | some wrap, some en, some ts =>
+      if (par ≠ "0" ∧ par ≠ "1") ∨ en.length ≠ st.dims.length ∨ st.dims.isEmpty then (st, "bad-op")
+      else
+        let geo := Geo.ofList (st.dims.zip en)
+        let (r, σ') := sendStm ts wrap geo (par = "1") { st.σ with log := [] }
+        let req' := match r with
+          | .ok s => applyReq st.req { segment := s.segment, transition := s.transition, drives := s.patterns.headD [] }
+          | .error _ => st.req
+        ({ st with σ := σ', req := req' }, answerStm r req' σ'.log)
     | _, _, _ => (st, "bad-op")
   | _ => (st, "bad-op")
 
